@@ -1,40 +1,98 @@
 #!/usr/bin/env python3
-"""Apply every seeded defect to /repo in turn (git apply ... git checkout -- .) and record which checks alarm.
-usage: tools/seedsweep.py [seed-dir-names...]   -> writes seeded/RESULTS.json and prints a table"""
+"""Run every claimed check against every seeded change and record which checks alarm.
+
+Each worker owns a scratch copy of /repo's working tree (under /tmp/hxsweep, removed at the end) with its own
+target directory and evidence directory (HX_REPO / HX_WORK / HX_EVIDENCE), applies one seeded patch at a time to its
+copy, runs ./check for every claimed property and reverts the copy.  /repo itself is only read.
+
+usage: tools/seedsweep.py [-j N] [seed-dir-names or property ids ...]   -> writes seeded/RESULTS.json, prints a table
+"""
 import json
 import os
+import shutil
 import subprocess
 import sys
+import threading
 
 V = os.path.dirname(os.path.dirname(os.path.abspath(__file__)))
 os.chdir(V)
+args = sys.argv[1:]
+jobs = 4
+if args[:1] == ["-j"]:
+    jobs = int(args[1])
+    args = args[2:]
 seeds = sorted(d for d in os.listdir("seeded") if os.path.isdir(os.path.join("seeded", d)))
-if len(sys.argv) > 1:
-    seeds = [s for s in seeds if s in sys.argv[1:] or s.split("-")[0] in sys.argv[1:]]
+if args:
+    seeds = [s for s in seeds if s in args or s.split("-")[0] in args]
 man = json.load(open("MANIFEST.json"))
 claimed = [c["property_id"] for c in man["checks"]]
-assert subprocess.run(["git", "-C", "/repo", "status", "--porcelain", "--untracked-files=no"], capture_output=True, text=True).stdout.strip() == "", "/repo has local changes"
+SCR = "/tmp/hxsweep"
+shutil.rmtree(SCR, ignore_errors=True)
+# the checks run from a snapshot of /verif, so that /verif can be edited while the sweep runs
+SNAP = os.path.join(SCR, "verif")
+os.makedirs(SNAP)
+subprocess.check_call(["rsync", "-a", "--exclude", "/.work", "--exclude", "/.git", "--exclude", "/engines/*/target", "--exclude", "/evidence", V + "/", SNAP + "/"])
+for eng in ("hx-mir", "hx-ast"):
+    os.makedirs(os.path.join(SNAP, "engines", eng, "target", "debug"))
+    shutil.copy2(os.path.join(V, "engines", eng, "target", "debug", eng), os.path.join(SNAP, "engines", eng, "target", "debug", eng))
 res = {}
 rp = os.path.join("seeded", "RESULTS.json")
-if os.path.exists(rp) and len(sys.argv) > 1:
+if os.path.exists(rp) and args:
     res = json.load(open(rp))
-for s in seeds:
-    patch = os.path.join(V, "seeded", s, "patch.diff")
-    r = subprocess.run(["git", "-C", "/repo", "apply", patch], capture_output=True, text=True)
-    if r.returncode != 0:
-        res[s] = {"error": "patch does not apply: " + r.stderr[:200]}
-        print(s, "PATCH DOES NOT APPLY")
-        continue
-    try:
-        hits = {}
-        for p in claimed:
-            out = subprocess.run(["./check", p], capture_output=True, text=True)
-            if out.returncode != 0:
-                hits[p] = [l.strip()[:240] for l in out.stdout.splitlines() if l.strip().startswith("violated")][:4]
-        own = s.split("-")[0]
-        res[s] = {"caught_by": sorted(hits), "own_property_alarm": own in hits, "detail": hits}
-        print("%-7s own=%-5s caught_by=%s" % (s, own in hits, ",".join(sorted(hits)) or "-"))
-    finally:
-        subprocess.run(["git", "-C", "/repo", "checkout", "--", "."])
-json.dump(res, open(rp, "w"), indent=1)
-subprocess.run(["git", "-C", "/repo", "status", "--short"])
+lock = threading.Lock()
+todo = list(seeds)
+
+
+def copy_repo(dst):
+    os.makedirs(dst)
+    subprocess.check_call(["rsync", "-a", "--exclude", "/target", "--exclude", "/.git", "/repo/", dst + "/"])
+
+
+def run_checks(env):
+    hits = {}
+    for p in claimed:
+        out = subprocess.run(["./check", p], capture_output=True, text=True, env=env, cwd=SNAP)
+        if out.returncode != 0:
+            hits[p] = [l.strip()[:240] for l in out.stdout.splitlines() if l.strip().startswith("violated")][:4] or [out.stderr[-200:]]
+    return hits
+
+
+def worker(i):
+    base = os.path.join(SCR, "w%d" % i)
+    repo = os.path.join(base, "repo")
+    copy_repo(repo)
+    env = dict(os.environ, HX_REPO=repo, HX_WORK=os.path.join(base, "work"), HX_EVIDENCE=os.path.join(base, "evidence"))
+    if i == 0:
+        clean = run_checks(env)
+        with lock:
+            res["_clean_tree"] = {"alarms": sorted(clean)}
+            print("clean tree: alarms=%s" % (",".join(sorted(clean)) or "-"), flush=True)
+    while True:
+        with lock:
+            if not todo:
+                return
+            s = todo.pop(0)
+        patch = os.path.join(V, "seeded", s, "patch.diff")
+        r = subprocess.run(["git", "apply", patch], cwd=repo, capture_output=True, text=True)
+        if r.returncode != 0:
+            with lock:
+                res[s] = {"error": "patch does not apply: " + r.stderr[:200]}
+                print(s, "PATCH DOES NOT APPLY", r.stderr[:200], flush=True)
+            continue
+        try:
+            hits = run_checks(env)
+            own = s.split("-")[0]
+            with lock:
+                res[s] = {"caught_by": sorted(hits), "own_property_alarm": own in hits, "detail": hits}
+                print("%-7s own=%-5s caught_by=%s" % (s, own in hits, ",".join(sorted(hits)) or "-"), flush=True)
+        finally:
+            subprocess.run(["git", "apply", "-R", patch], cwd=repo, capture_output=True)
+
+
+ths = [threading.Thread(target=worker, args=(i,)) for i in range(min(jobs, max(1, len(seeds))))]
+for t in ths:
+    t.start()
+for t in ths:
+    t.join()
+json.dump({k: res[k] for k in sorted(res)}, open(rp, "w"), indent=1)
+shutil.rmtree(SCR, ignore_errors=True)
